@@ -2,7 +2,7 @@
 # robustness sweep: every automatic behaviour-preserving transform on every claimed property; prints one line per (property, transform)
 cd "$(dirname "$0")/.."
 [ -x tools/stirfacts/stirfacts ] || make -C tools/stirfacts >/dev/null 2>&1
-for t in ${TRANSFORMS:-rename noop preinc parens unconst braces ltplus eqswap compound}; do
+for t in ${TRANSFORMS:-rename noop preinc parens unconst braces ltplus eqswap compound hoistcond}; do
   for p in C01 C02 C03 C04 C05 C06 C07 C08 C09 C10 C11 C12 C13 C14 C15 C16 C17 C18 C19 C20; do
     tools/autoequiv.py $p --transform $t 2>&1 | head -4 | cut -c1-300
   done
